@@ -25,6 +25,6 @@ def loads_grammar(json_str: str) -> g.Grammar:
 
 def load_grammar(value: Any) -> g.Grammar:
     """Parse JSON value and return a Grammar object."""
-    result = fromjson(value)
+    result = fromjson(value, package=g.__name__)
     assert isinstance(result, g.Grammar)
     return result
